@@ -170,22 +170,25 @@ def m_undefined(rng, fs):
 
 
 def m_misaligned(rng, fs):
-    c = [(fi, di, d) for fi, di, d in _structs(fs)]
-    if not c:
-        return None
-    fi, di, d = rng.choice(c)
+    """a new struct that violates exactly one alignment rule, at a random depth of nesting"""
     B = copy.deepcopy(fs)
+    fi = rng.randrange(len(fs["files"]))
+    depth = rng.randint(0, 2)
     if rng.random() < 0.5:
-        fl = [("uint8", 1, "mz")] + list(d[2])
-        if all(t in ("uint8", "int8") for t, c_, n in d[2]):
-            fl = [("uint8", 1, "mz"), ("uint32", 1, "my")]
-        rule = "misaligned_member"
+        rule, fields = "misaligned_member", [(rng.choice(["uint8", "int8", "uint16"]), 1, "a"), (rng.choice(["uint32", "uint64", "float64"]), 1, "b")]
+        if fields[0][0] == "uint16" and fields[1][0] == "uint32":
+            fields[0] = ("uint8", 1, "a")
     else:
-        fl = [("uint32", 1, "my")] + list(d[2]) + [("uint8", 1, "mz")]
-        rule = "misaligned_size"
-    B["files"][fi]["decls"][di] = ("struct", d[1], fl)
-    # the struct's users may also become misaligned; still exactly one rule family is violated
-    return B, {"rule": rule, "where": _where(fs, fi), "in_cone": d[1] in _main_cone_structs(fs), "struct": d[1]}
+        t = rng.choice(["uint32", "uint64", "uint16"])
+        rule, fields = "misaligned_size", [(t, 1, "a"), ("uint8", 1, "b")]
+    decls = [("struct", "ZMis0", fields)]
+    for d in range(depth):
+        # an outer struct that is itself well-formed given an aligned inner one
+        decls.append(("struct", "ZMis%d" % (d + 1), [("ZMis%d" % d, 1, "inner")]))
+    pos = rng.randint(0, len(B["files"][fi]["decls"]))
+    for k, d in enumerate(decls):
+        B["files"][fi]["decls"].insert(pos + k, d)
+    return B, {"rule": rule, "where": _where(fs, fi), "in_cone": _where(fs, fi) == "main", "struct": "ZMis0", "depth": depth}
 
 
 def m_const_range(rng, fs):
